@@ -325,7 +325,10 @@ impl Driver {
                 .iter()
                 .map(|t| (if t.is_coinbase() { 0 } else { t.input.len() }) as u64 + t.output.len() as u64)
                 .sum();
-            if self.w.ingest_rounds > n + 1 {
+            // (the bound is kept generous — 2n + ntx + 8 — so that a different placement of the
+            // budget checks, e.g. one more per transaction, is not mistaken for non-termination)
+            let ntx = self.w.block(anchor).block.txdata.len() as u64;
+            if self.w.ingest_rounds > 2 * n + ntx + 8 {
                 return Err(violation(
                     "C08",
                     "ingestion-does-not-finish",
@@ -357,6 +360,7 @@ impl Driver {
     fn twin_compare(&mut self, start: usize) -> Result<(), Violation> {
         let mine = full_state_digest(&mut self.w).map_err(|t| violation("C08", "snapshot-trap", t.0))?;
         let cfg = self.w.cfg.clone();
+        let my_stable_height = observe().stable_height;
         let mut prefix: Vec<Event> = self.events[..start].to_vec();
         prefix.push(Event::Heartbeat { pause_at: 0 });
         let twin = std::thread::Builder::new()
@@ -370,9 +374,25 @@ impl Driver {
                     d.w.apply(ev).map_err(|v| format!("twin diverged: {:?}", v))?;
                     d.index += 1;
                 }
-                let o = observe();
-                if o.ingesting.is_some() {
-                    return Err("twin still ingesting".into());
+                // The statement compares *states*, not heartbeat counts: if the unsliced run needs a
+                // further heartbeat to stabilise a second block that the sliced run's finishing round
+                // already took (or the code ingests one block per round), give it those heartbeats.
+                let mut extra = 0;
+                loop {
+                    let o = observe();
+                    if o.ingesting.is_some() {
+                        return Err("twin still ingesting".into());
+                    }
+                    if o.stable_height >= my_stable_height || extra >= 8 {
+                        if o.stable_height != my_stable_height {
+                            return Err("twin at another stable height".into());
+                        }
+                        break;
+                    }
+                    d.w.event_index = d.index;
+                    d.w.apply(&Event::Heartbeat { pause_at: 0 }).map_err(|v| format!("twin diverged: {:?}", v))?;
+                    d.index += 1;
+                    extra += 1;
                 }
                 full_state_digest(&mut d.w).map_err(|t| t.0)
             })
